@@ -274,8 +274,11 @@ def run(pid: str, tier: str, replay: str | None = None) -> int:
         tv = [s for s in states if s["phase"] == "evaluated" and s["item"]["k"] != "atom"]
         if tier != "thorough":
             import random
-            random.Random(rep.seed).shuffle(tv)
-            tv = tv[:1500]
+            # every depth-1 tree (two atoms, where parse-time merging happens) + a sample of the depth-2 ones
+            shallow = [s for s in tv if all(c["k"] == "atom" for c in s["item"]["ch"])]
+            deep = [s for s in tv if not all(c["k"] == "atom" for c in s["item"]["ch"])]
+            random.Random(rep.seed).shuffle(deep)
+            tv = shallow + deep[:1500]
         for n, fails, se in _pmap(_eval_chunk, [(ch, envs2) for ch in _split(tv)]):
             total += n
             spec_err += se
